@@ -134,6 +134,9 @@ def operand_cases(op: Op, dimA, dimB, tier, boundary=False):
         seconds = _beta3_partners(tier)
     else:
         seconds = A.partners(dimB, tier)
+        if op.name == "rotate_axis":
+            # axes in the all-negative and all-positive octants too (the partners cover mixed-sign octants only)
+            seconds = list(seconds) + [A.Vec("axis---", (-0.3125, -0.6875, -0.5), {"generic"}), A.Vec("axis+++", (0.375, 0.25, 1.5), {"generic"})]
     out = []
     for a in firsts:
         for b in seconds:
